@@ -23,7 +23,8 @@ RULE = ('1-5 metric definitions per tracepoint x 4 types x labels (none, static 
 ASSUMPTIONS = ['numeric-looking strings are not used as "non-numeric" values', 'absent help/unit may arrive as None or ""',
                'label values are compared as text']
 REQUIRE = {'calls_compared': 2500, 'hits_checked': 1500, 'no_processor_phases': 60, 'wire_definitions': 300,
-           'failing_value_exprs': 100, 'label_exprs': 300}
+           'failing_value_exprs': 100, 'label_exprs': 300, 'same_name_definitions': 100,
+           'label_sets_kept': 2000}
 T0 = 1_700_000_000_000_000_000
 TYPES = ['counter', 'gauge', 'histogram', 'summary']
 
@@ -80,6 +81,21 @@ def case_metric(seed, out, spec, wd):
         d = {'name': 'metric_%d' % i, 'type': r.pick(TYPES), 'expr': r.pick(VALUE_EXPRS),
              'namespace': r.pick([None, None, 'shop', 'ns_%d' % i]), 'help': r.pick([None, 'some help', 'h']),
              'unit': r.pick([None, 'ms', 'bytes']), 'labels': []}
+        if i and r.chance(0.2):
+            # the same metric name once more, as another type or in another namespace (e.g. latency as histogram and as
+            # summary): two definitions, two reports
+            prev = defs[-1]
+            d['name'] = prev['name']
+            if r.chance(0.5):
+                d['type'] = r.pick([t for t in TYPES if t != prev['type']])
+                d['namespace'] = prev['namespace']
+            else:
+                d['namespace'] = 'other_%d' % i
+            if any((x['name'], x['type'], x['namespace'] or 'deep') == (d['name'], d['type'], d['namespace'] or 'deep')
+                   for x in defs):
+                d['name'] = 'metric_%d' % i
+            else:
+                out.count('same_name_definitions')
         for j in range(r.pick([0, 0, 1, 2, 3])):
             if r.chance(0.5):
                 d['labels'].append(('l%d' % j, 'static', r.pick(STATICS)))
@@ -162,7 +178,7 @@ def case_metric(seed, out, spec, wd):
                     else:
                         lv, lfail = rec_eval(v, frame)
                         labels[key] = ('any', None) if lfail is not None else ('is', lv)
-                exp[d['name']] = (d['type'], labels, value, vfail)
+                exp[(d['name'], d['type'], d['namespace'] or 'deep')] = (d['type'], labels, value, vfail)
             expected.append(exp)
 
     def hook(name, callback, payload):
@@ -210,17 +226,20 @@ def case_metric(seed, out, spec, wd):
         exp = expected[h]
         for p in procs:
             mine = [pl for (nm, pl) in got if nm == p.name]
-            names = [pl[1] for pl in mine]
-            for name, (typ, labels, value, vfail) in exp.items():
-                n = names.count(name)
+            names = [(pl[1], pl[0], pl[3]) for pl in mine]
+            for key, (typ, labels, value, vfail) in exp.items():
+                name = key[0]
+                same_name = [k for k in names if k[0] == name]
+                n = names.count(key) if len([k for k in exp if k[0] == name]) > 1 else len(same_name)
                 if n != 1:
                     mech = 'metric:budget-used-without-processor' if (n == 0 and not mine and dry and fc != -1) else \
                         'metric:not-reported-once'
                     out.violation(mech, 'hit %d: metric %s reported %d times to processor %s (calls there: %s)' % (
                         h, name, n, p.name, names), witness, replay)
                     return
-                op, _, glabels, gns, ghelp, gunit, gval = [pl for pl in mine if pl[1] == name][0]
-                d = [x for x in defs if x['name'] == name][0]
+                cands = [pl for pl in mine if (pl[1], pl[0], pl[3]) == key] or [pl for pl in mine if pl[1] == name]
+                op, _, glabels, gns, ghelp, gunit, gval = cands[0]
+                d = [x for x in defs if (x['name'], x['type'], x['namespace'] or 'deep') == key][0]
                 if op != typ:
                     out.violation('metric:wrong-operation', 'metric %s of type %s reported through %s()' % (
                         name, typ, op), witness, replay)
@@ -247,11 +266,19 @@ def case_metric(seed, out, spec, wd):
                         name, d['expr'], gval, value), witness, replay)
                     return
                 compared += 1
-            extra = [nm for nm in names if nm not in exp]
+            extra = [nm for nm in names if nm[0] not in {k[0] for k in exp}]
             if extra:
                 out.violation('metric:unknown-metric', 'processor %s got undefined metrics %s' % (p.name, extra),
                               witness, replay)
                 return
+    # a processor may keep the labels it was given (to export them later): they must not change afterwards
+    changed = [(obj, copy) for obj, copy in plugins.KEPT_LABELS if obj != copy]
+    if changed:
+        out.violation('metric:labels-changed-after-report', 'labels handed to a processor as %r read %r afterwards (%d of %d '
+                                                            'label sets changed)' % (changed[0][1], changed[0][0],
+                                                                                     len(changed), len(plugins.KEPT_LABELS)),
+                      witness, replay)
+    out.count('label_sets_kept', len(plugins.KEPT_LABELS))
     out.count('calls_compared', compared)
     out.count('hits_checked', total)
     if dry or not nproc:
